@@ -53,6 +53,87 @@ def strip_clippy(w):
     w.lines = keep
 
 
+def hole_arm_live(w, head_regex, hint, rec_names):
+    """Make a `Unifier(..) =>` arm verifiable for RESOLVED holes:
+    R9  `{ subterm.borrow().clone() }` -> `hole_content(subterm)` (assumed contract: the frozen cell content);
+    R11 the recursive calls inside the arm -> `<fn>_rec(..)`, external stubs carrying the function's OWN contract
+        (partial-correctness induction; termination of the recursion through hole contents rests on the
+        acyclicity of the hole graph, which is not verified)."""
+    i = w.find(head_regex)
+    j = w.block_end(i)
+    n = 0
+    for k in range(i, j + 1):
+        new = w.lines[k].replace("{ subterm.borrow().clone() }", "hole_content(subterm)")
+        if new != w.lines[k]:
+            w.log["rewrites"].append({"rule": "R9-hole-read", "site": w._where(k), "before": w.lines[k], "after": new, "note": "RefCell read + clone as a stub with the assumed frozen-content contract"})
+            w.lines[k] = new
+            n += 1
+        new = w.lines[k]
+        for name in rec_names:
+            new = re.sub(r"(?<![\w.])" + name + r"\(", name + "_rec(", new)
+        if new != w.lines[k]:
+            w.log["rewrites"].append({"rule": "R11-hole-recursion", "site": w._where(k), "before": w.lines[k], "after": new, "note": "recursive call inside a hole arm as a call to a stub with the function's own contract"})
+            w.lines[k] = new
+    if n != 1:
+        raise LostAnchor(f"{w._where(i)}: expected exactly one `{{ subterm.borrow().clone() }}` in the hole arm, found {n}")
+    if hint:
+        # the hint goes at the head of the arm: under the precondition the hole is a resolved one
+        w.lines[i + 1 : i + 1] = hint.rstrip("\n").split("\n")
+        w.log["annotations"].append({"fn": w.name, "kind": "proof-after", "anchor": "Unifier(subterm, subterm_shift) => {"})
+
+
+def rec_stub(w):
+    """The external stub `<fn>_rec` with the same signature and contract as the woven function w (minus
+    `decreases`)."""
+    i = w.lines.index("{")
+    head = []
+    skip = False
+    for l in w.lines[:i]:
+        if l.startswith("    decreases"):
+            skip = True
+            continue
+        if skip and l.startswith("        "):
+            continue
+        skip = False
+        if l.startswith("#[verifier::exec_allows_no_decreases_clause]"):
+            continue
+        head.append(l)
+    text = "\n".join(head)
+    text, n = re.subn(r"\bfn " + w.name + r"\b", "fn " + w.name + "_rec", text, count=1)
+    if n != 1:
+        raise LostAnchor(f"{w.src.rel} fn {w.name}: cannot derive the _rec stub")
+    return "// R11 stub: same contract as `" + w.name + "`; used only for the recursive calls inside hole arms\n#[verifier::external_body]\n" + text + "\n{ unimplemented!() }\n"
+
+
+def map_or_else_to_match(w, head_regex):
+    """R10: `{ E }.map_or_else(|| A, |x| { B })` (rustfmt layout) -> `match { E } { None => A, Some(x) => { B } }`."""
+    i0 = w.find(head_regex)
+    j0 = w.block_end(i0)
+    i = w.find(r"^\s*\{ subterm\.borrow\(\)\.clone\(\) \}\.map_or_else\($", 1, i0)
+    j = w.block_end(i)
+    if j > j0 or w.lines[j].strip() != ")":
+        raise LostAnchor(f"{w._where(i)}: map_or_else shape not as expected")
+    a = i + 1
+    m1 = re.match(r"^(\s*)\|\| (.*)$", w.lines[a])
+    if not m1:
+        raise LostAnchor(f"{w._where(a)}: expected `|| ..`")
+    ae = w.block_end(a)
+    if not w.lines[ae].rstrip().endswith(","):
+        raise LostAnchor(f"{w._where(ae)}: expected the end of the first closure")
+    bline = ae + 1
+    m2 = re.match(r"^(\s*)\|(\w+)\| \{$", w.lines[bline])
+    if not m2:
+        raise LostAnchor(f"{w._where(bline)}: expected `|x| {{`")
+    be = w.block_end(bline)
+    if w.lines[be].strip() != "}," or be + 1 != j:
+        raise LostAnchor(f"{w._where(be)}: expected the end of the second closure")
+    ind = m1.group(1)
+    head = w.lines[i].replace(".map_or_else(", " {")
+    head = re.sub(r"^(\s*)", r"\1match ", head, count=1)
+    new = [head, ind + "None => " + m1.group(2)] + w.lines[a + 1 : ae + 1] + [ind + "Some(" + m2.group(2) + ") => {"] + w.lines[bline + 1 : be] + [ind + "}", w.lines[j].replace(")", "}")]
+    w.rewrite_lines("R10-map-or-else", i, j, new, note="Option::map_or_else with two closures as the equivalent match")
+
+
 def weave_signed_shift(w, sc):
     w.contract(sc["signed_shift.contract"], ret="r")
     w.body_first(sc["signed_shift.first"])
@@ -72,6 +153,7 @@ def weave_signed_shift(w, sc):
     w.lines[i_let + 1 : i_let + 1] = sc["signed_shift.let.pre"].rstrip("\n").split("\n")
     w.log["annotations"].append({"fn": w.name, "kind": "proof-after", "anchor": "Let(definitions, body) => {"})
     w.bind_tail(r"^            Some\(Term \{$", "shifted", sc["signed_shift.let.tail.post"], pre_text=sub(sc["signed_shift.let.tail.pre"]))
+    hole_arm_live(w, r"^        Unifier\(subterm, subterm_shift\) => \{$", sc["signed_shift.hole"], ["signed_shift", "unsigned_shift"])
 
 
 def weave_unsigned_shift(w, sc):
@@ -134,7 +216,8 @@ def map_collect_to_loop(w, first_regex, iter_name, invariant, body_pre=None, ele
 def weave_open(w, sc):
     w.contract(sc["open.contract"], ret="r")
     w.body_first(sc["open.first"])
-    drop_hole_arm(w, r"^        Unifier\(subterm, subterm_shift\) => \{$", "hole_arm_unreachable()")
+    map_or_else_to_match(w, r"^        Unifier\(subterm, subterm_shift\) => \{$")
+    hole_arm_live(w, r"^        Unifier\(subterm, subterm_shift\) => \{$", sc["open.hole"], ["open", "unsigned_shift"])
     i_let = w.find(r"^        Let\(definitions, body\) => \{$")
     w.lines[i_let + 1 : i_let + 1] = sc["open.let.pre"].rstrip("\n").split("\n")
     w.log["annotations"].append({"fn": w.name, "kind": "proof-after", "anchor": "Let(definitions, body) => {"})
@@ -149,6 +232,7 @@ def weave_open(w, sc):
 def weave_free_variables(w, sc):
     w.contract(sc["free_variables.contract"])
     w.body_first(sc["free_variables.first"])
+    hole_arm_live(w, r"^        Variant::Unifier\(subterm, subterm_shift\) => \{$", sc["free_variables.hole"], ["free_variables", "unsigned_shift"])
     w.before(r"^\s*for \(_, annotation, definition\) in definitions \{$", sc["free_variables.let.pre"])
     w.for_invariant(1, "it", sc["free_variables.let.loop"])
     i = w.find(r"^\s*free_variables\(annotation, cutoff \+ definitions\.len\(\), variables\);$")
@@ -283,12 +367,16 @@ def weave_is_value(w, sc):
     w.contract(sc["is_value.contract"], ret="r")
 
 
-def weave_step(w, sc):
-    w.contract(sc["step.contract"], ret="r")
-    w.body_first(sc["step.first"])
-    # R6: the hole arm
+def weave_step(w, sc, strict=False):
+    w.contract(sc["step_strict.contract" if strict else "step.contract"], ret="r")
+    w.body_first(sc["step_strict.first" if strict else "step.first"])
+    # the hole arm: R10 (`.map(closure)` on the hole read as a match), then R9/R11
     i = w.find(r"^        Unifier\(subterm, subterm_shift\) => \{$")
-    drop_hole_arm(w, r"^        Unifier\(subterm, subterm_shift\) => \{$", "hole_arm_unreachable_opt()")
+    k = w.find(r"^\s*\{ subterm\.borrow\(\)\.clone\(\) \}\.map\(\|subterm\| (.*)\)$", 1, i)
+    m = re.match(r"^(\s*)(\{ subterm\.borrow\(\)\.clone\(\) \})\.map\(\|subterm\| (.*)\)$", w.lines[k])
+    ind = m.group(1)
+    w.rewrite_lines("R10-option-map", k, k, [ind + "match " + m.group(2) + " {", ind + "    None => None,", ind + "    Some(subterm) => {", ind + "        Some(" + m.group(3) + ")", ind + "    }", ind + "}"], note="Option::map with a closure as the equivalent match")
+    hole_arm_live(w, r"^        Unifier\(subterm, subterm_shift\) => \{$", sc["step.hole"], ["unsigned_shift"])
     # R3: operator sugar on &BigInt
     rewrite_bigint_ops(w)
     if w.count(r"\.map\(\|quotient\| Term \{$"):
@@ -321,7 +409,8 @@ def weave_evaluate(w, sc):
     w.after(r"^    let mut term = term\.clone\(\);$", sc["evaluate.cloned"])
     w.while_invariant(1, sc["evaluate.loop"])
     i = w.find(r"^        term = \w+;$")
-    w.lines[i:i] = sc["evaluate.loop.body.pre"].rstrip("\n").split("\n")
+    stepped = re.match(r"^        term = (\w+);$", w.lines[i]).group(1)
+    w.lines[i:i] = sc["evaluate.loop.body.pre"].replace("$STEPPED", stepped).rstrip("\n").split("\n")
     w.after(r"^        term = \w+;$", sc["evaluate.loop.body.post"])
     w.before(r"^    if is_value\(&term\) \{$", sc["evaluate.after"])
     w.rewrite_regex("R5-stuck-message", r'format!\("Evaluation of \{\} is stuck!", term\.to_string\(\)\.code_str\(\)\)', "stuck_message(&term)", expect=1, note="message text is not part of C02; Display/format! are outside the verifier's reach")
@@ -415,7 +504,6 @@ def build_core(repo, external=(), canary=None, with_witness=True, boost=False):
     log["dropped"].append({"site": "src/error.rs struct Error", "text": "#[derive(Clone, Debug)]", "why": "neither impl is used by the functions under contract"})
     b.add(CLONE_IMPLS)
     b.add(VARIANT_IMPORT)
-    b.add(HOLE_STUB)
     b.add(read("spec/core_spec.rs"))
     b.add(read("spec/core_bounds.rs"))
     b.add(read("spec/core_laws.rs"))
@@ -439,10 +527,20 @@ def build_core(repo, external=(), canary=None, with_witness=True, boost=False):
     st = Woven(ev_rs, "fn", "step", log)
     strip_clippy(st)
     weave_step(st, sc)
+    # the same real text once more under the strict contract for terms without hole nodes
+    st2 = Woven(ev_rs, "fn", "step", log)
+    strip_clippy(st2)
+    weave_step(st2, sc, strict=True)
+    st2.lines = [re.sub(r"(?<![\w.])step\(", "step_strict(", l) for l in st2.lines]
+    st2.lines = [re.sub(r"\bfn step<", "fn step_strict<", l) for l in st2.lines]
+    st2.name = "step_strict"
+    log["rewrites"].append({"rule": "R12-second-contract", "site": "src/evaluator.rs fn step", "before": "fn step / step(..)", "after": "fn step_strict / step_strict(..)", "note": "the same body verified a second time under the strict contract (requires t_unifier_free); only the function's own name is changed"})
     ev = Woven(ev_rs, "fn", "evaluate", log)
     weave_evaluate(ev, sc)
-    for f in (ss, us, op, fv, iv, st, ev):
+    for f in (ss, us, op, fv, iv, st, st2, ev):
         b.add_fn(f, external=f.name in external)
+    for f in (ss, us, op, fv):
+        b.add(rec_stub(f))
 
     if with_witness:
         b.add(read("spec/core_witness.rs"))
@@ -572,7 +670,7 @@ def build_parser(repo, external=(), canary=None, with_witness=True, boost=False)
 def canaries(unit):
     """fn -> sidecar section holding a deliberately wrong contract (must-fail vacuity guard)."""
     if unit == "core":
-        return {fn: fn + ".canary" for fn in ("signed_shift", "unsigned_shift", "open", "free_variables", "is_value", "step")}
+        return {fn: fn + ".canary" for fn in ("signed_shift", "unsigned_shift", "open", "free_variables", "is_value", "step", "step_strict")}
     if unit == "parser":
         return {fn: fn + ".canary" for fn in ("reassociate_applications", "reassociate_products_and_quotients", "reassociate_sums_and_differences")}
     return {}
